@@ -503,6 +503,12 @@ class DFXPWriter(BaseWriter):
                 line = self._recreate_span(
                     line, node, dfxp, caption_set, caption, lang)
 
+        if self.open_span:
+            # a span the caption's nodes never closed must not stay open:
+            # it would leak a closing tag into the next caption or document
+            line = line.rstrip() + '</span>'
+            self.open_span = False
+
         return line.rstrip()
 
     def _recreate_span(self, line, node, dfxp, caption_set=None, caption=None,
